@@ -21,8 +21,8 @@ pub static PROP: PropDef = PropDef {
     tape_len: 400,
     random_cases: |t| t.pick(600_000, 12_000_000),
     run_tape,
-    exhaustive: None,
-    run_direct: None,
+    exhaustive: Some(bulk_family),
+    run_direct: Some(run_direct),
     min_classes: &[("nontrivial", 10000), ("dynamic_reference", 30000), ("eviction", 10000), ("blocked_attempt", 10000), ("late_delivery", 20000), ("ack_delivered", 20000), ("stream_cancelled", 2000), ("duplicate_instruction", 1000)],
     extra: None,
 };
@@ -85,6 +85,100 @@ fn gen_workload(t: &mut Tape) -> Workload {
 
 fn wl_json(w: &Workload) -> Value {
     json!({"capacity": w.capacity, "max_blocked": w.max_blocked, "sections": w.sections.iter().map(|(s, f)| json!({"stream": s, "fields": f.iter().map(|(n, v)| format!("{}: {}", NAMES[*n], VALUES[*v])).collect::<Vec<_>>()})).collect::<Vec<_>>()})
+}
+
+
+/// Bulk delivery: `n` sections on `n` streams, each inserting one new entry (capacity 4096 holds them all, blocked limit
+/// above n), every encoder-stream byte handed to the decoder in ONE on_encoder_recv call, its answer handed to the encoder in one
+/// on_decoder_recv call, then every section decoded. Legal for any n; the interesting values are the limits of the integer
+/// types an implementation may count insertions in.
+fn bulk_delivery_case(n: usize, ctx: &mut Ctx) -> Verdict {
+    ctx.eval();
+    let case = || json!({"kind": "bulk_delivery", "sections": n});
+    let fail = |m: String| Err(Failure::direct(m, case()));
+    let r = catch(|| -> Result<(), String> {
+        let mut et = DynamicTable::new();
+        let mut dt = DynamicTable::new();
+        // the default capacity for the sizes around the 6-bit prefix, a larger table for the sizes around one byte
+        let cap = 4096.max(40 * n);
+        let period = 90.max(n);
+        et.set_max_size(cap).map_err(|e| format!("{e:?}"))?;
+        et.set_max_blocked(1000).map_err(|e| format!("{e:?}"))?;
+        dt.set_max_size(cap).map_err(|e| format!("{e:?}"))?;
+        dt.set_max_blocked(1000).map_err(|e| format!("{e:?}"))?;
+        let mut enc = Encoder::from(et);
+        let mut dec = Decoder::from(dt);
+        let mut enc_stream: Vec<u8> = Vec::new();
+        let mut blocks: Vec<(u64, Vec<u8>, Vec<u8>)> = Vec::new();
+        // entries of 32 + 1 + len(value) <= 38 bytes: at most 100 fit, older unreferenced ones make room
+        for i in 0..n {
+            let value = format!("{i}").into_bytes();
+            let mut block = Vec::new();
+            enc.encode(4 * i as u64, &mut block, &mut enc_stream, vec![HeaderField::new(b"k".to_vec(), value.clone())]).map_err(|e| format!("encode of section {i} failed: {e:?}"))?;
+            blocks.push((4 * i as u64, block, value));
+            if i % period == period - 1 && i + 1 < n {
+                // let the decoder catch up so that entries can be acknowledged and later evicted (not the point here)
+                let mut rd: &[u8] = &enc_stream;
+                let mut dec_stream = Vec::new();
+                dec.on_encoder_recv(&mut rd, &mut dec_stream).map_err(|e| format!("on_encoder_recv failed: {e:?}"))?;
+                enc_stream.clear();
+                for (st, b, v) in blocks.drain(..) {
+                    let mut rb: &[u8] = &b;
+                    let got = dec.decode_header(&mut rb).map_err(|e| format!("decode failed: {e:?}"))?;
+                    if got.fields.len() != 1 || got.fields[0].value.as_ref() != v.as_slice() {
+                        return Err(format!("section on stream {st} decodes to {} fields", got.fields.len()));
+                    }
+                    ack_header(st, &mut dec_stream);
+                }
+                let mut rd2: &[u8] = &dec_stream;
+                enc.on_decoder_recv(&mut rd2).map_err(|e| format!("on_decoder_recv failed on a legal decoder stream: {e:?}"))?;
+            }
+        }
+        let mut rd: &[u8] = &enc_stream;
+        let mut dec_stream = Vec::new();
+        dec.on_encoder_recv(&mut rd, &mut dec_stream).map_err(|e| format!("on_encoder_recv failed on a legal encoder stream carrying {} insertions in one read: {e:?}", blocks.len()))?;
+        if !rd.is_empty() {
+            return Err(format!("{} encoder-stream bytes left unconsumed", rd.len()));
+        }
+        let mut rd2: &[u8] = &dec_stream;
+        enc.on_decoder_recv(&mut rd2).map_err(|e| format!("on_decoder_recv failed on the decoder's own answer ({}) to {} insertions delivered in one read: {e:?}", hex(&dec_stream), blocks.len()))?;
+        for (st, b, v) in &blocks {
+            let mut rb: &[u8] = b;
+            let got = dec.decode_header(&mut rb).map_err(|e| format!("section on stream {st} fails to decode although every instruction was delivered: {e:?}"))?;
+            if got.fields.len() != 1 || got.fields[0].name.as_ref() != b"k" || got.fields[0].value.as_ref() != v.as_slice() {
+                return Err(format!("section on stream {st} decodes to something else than k: {}", String::from_utf8_lossy(v)));
+            }
+        }
+        Ok(())
+    });
+    match r {
+        Ok(Ok(())) => {
+            ctx.class("bulk_delivery");
+            ctx.nontrivial(&("bulk", n));
+            Ok(())
+        }
+        Ok(Err(m)) => fail(m),
+        Err(p) => fail(format!("panic: {p}")),
+    }
+}
+
+fn run_direct(d: &Value, ctx: &mut Ctx) -> Verdict {
+    match d["kind"].as_str() {
+        Some("bulk_delivery") => bulk_delivery_case(d["sections"].as_u64().unwrap_or(65) as usize, ctx),
+        _ => Err(Failure::fault("unknown direct case")),
+    }
+}
+
+fn bulk_family(ctx: &mut Ctx, shard: usize, nshards: usize) -> Verdict {
+    for (i, n) in [1usize, 2, 63, 64, 65, 70, 127, 128, 255, 256, 300, 700].into_iter().enumerate() {
+        if i % nshards == shard {
+            bulk_delivery_case(n, ctx)?;
+        }
+    }
+    if shard == 0 {
+        ctx.subspace("bulk delivery of 1, 2, 63, 64, 65, 70, 127, 128, 255, 256, 300, 700 insertions in one read", 12);
+    }
+    Ok(())
 }
 
 fn run_tape(tape: &[u16], ctx: &mut Ctx) -> Verdict {
